@@ -28,22 +28,24 @@ SameTable(a, b) == /\ a.cols = b.cols /\ a.dig = b.dig /\ a.rows = b.rows
                    /\ Range(a.meta) = Range(b.meta)
                    /\ \A k \in Range(a.meta) : MetaTok(a, k) = MetaTok(b, k)
 
-(* a and b agree on all columns / header values outside the sets `exc' *)
-AgreeExcept(a, b, excCols, excKeys) ==
+(* a and b agree on the channel `own' (its columns / keywords are present in both or in neither) and on everything else they BOTH  *)
+(* have outside the other channel `exc'.  A column or keyword that only one of the two runs has and that is not one of the       *)
+(* channel's own (say a diagnostic a maintainer lets the radio stage write) is not an optical value that changed.               *)
+AgreeExcept(a, b, excCols, excKeys, ownCols, ownKeys) ==
     /\ a.rows = b.rows
-    /\ Range(a.cols) \ excCols = Range(b.cols) \ excCols
-    /\ \A c \in Range(a.cols) \ excCols : ColTok(a, c) = ColTok(b, c)
-    /\ Range(a.meta) \ excKeys = Range(b.meta) \ excKeys
-    /\ \A k \in Range(a.meta) \ excKeys : MetaTok(a, k) = MetaTok(b, k)
+    /\ Range(a.cols) \cap ownCols = Range(b.cols) \cap ownCols
+    /\ \A c \in (Range(a.cols) \cap Range(b.cols)) \ excCols : ColTok(a, c) = ColTok(b, c)
+    /\ Range(a.meta) \cap ownKeys = Range(b.meta) \cap ownKeys
+    /\ \A k \in (Range(a.meta) \cap Range(b.meta)) \ excKeys : MetaTok(a, k) = MetaTok(b, k)
 
 SameInput(a, b) == a.base = b.base /\ a.seed = b.seed
 
 Reproducible(a, b) ==
     (SameInput(a, b) /\ a.optical = b.optical /\ a.radio = b.radio) => SameTable(a, b)
 OpticalIsolated(a, b) ==
-    (SameInput(a, b) /\ a.optical /\ b.optical /\ a.radio # b.radio) => AgreeExcept(a, b, RadioCols, RadioKeys)
+    (SameInput(a, b) /\ a.optical /\ b.optical /\ a.radio # b.radio) => AgreeExcept(a, b, RadioCols, RadioKeys, OpticalCols, OpticalKeys)
 RadioIsolated(a, b) ==
-    (SameInput(a, b) /\ a.radio /\ b.radio /\ a.optical # b.optical) => AgreeExcept(a, b, OpticalCols, OpticalKeys)
+    (SameInput(a, b) /\ a.radio /\ b.radio /\ a.optical # b.optical) => AgreeExcept(a, b, OpticalCols, OpticalKeys, RadioCols, RadioKeys)
 
 Init == runs = {}
 Record(r) == runs' = runs \cup {r}
